@@ -656,3 +656,138 @@ def partial_lt(it, args, n, f):
     if res is None:
         raise Unrecognised("lt of %r, %r" % (l, r))
     return res
+
+
+# ------------------------------------------------------------------ further std idioms (kept small; one reason each)
+@model("std::mem::drop", doc="no abstract effect")
+def mem_drop(it, args, n, f):
+    return UnitV()
+
+
+@model("std::mem::take", doc="returns the old value, leaves the default (None for Option)")
+def mem_take(it, args, n, f):
+    c = deref(it, args[0])
+    old = it.force(c)
+    if isinstance(old, StructV) and old.adt == OPTION:
+        it.write(c, none())
+        return old
+    raise Unrecognised("mem::take of %r" % (old,))
+
+
+@model("std::mem::swap", doc="exchange two places")
+def mem_swap(it, args, n, f):
+    a, b = deref(it, args[0]), deref(it, args[1])
+    va, vb = it.force(a), it.force(b)
+    it.write(a, vb)
+    it.write(b, va)
+    return UnitV()
+
+
+@model("std::option::Option::<T>::expect", doc="payload, or panic on None")
+def opt_expect(it, args, n, f):
+    return opt_unwrap(it, args, n, f)
+
+
+@model("std::option::Option::<T>::insert", doc="leaves Some(new), returns &mut payload")
+def opt_insert(it, args, n, f):
+    c = deref(it, args[0])
+    opt_of(it, c)
+    o = some(args[1])
+    it.write(c, o)
+    return RefV(o.fields["0"], True)
+
+
+@model("std::option::Option::<T>::unwrap_or", doc="payload or the given default")
+def opt_unwrap_or(it, args, n, f):
+    o = it.val_force(args[0])
+    if isinstance(o, StructV) and o.adt == OPTION:
+        return it.force(o.fields["0"]) if o.variant == "Some" else args[1]
+    raise Unrecognised("unwrap_or of %r" % (o,))
+
+
+@model("std::option::Option::<T>::and_then", doc="None, or the function applied to the payload")
+def opt_and_then(it, args, n, f):
+    o = it.val_force(args[0])
+    if isinstance(o, StructV) and o.adt == OPTION:
+        if o.variant == "None":
+            return none()
+        return it.call_value(args[1], [it.force(o.fields["0"])], n)
+    raise Unrecognised("and_then of %r" % (o,))
+
+
+@model("std::option::Option::<T>::is_some_and", doc="false, or the predicate on the payload")
+def opt_is_some_and(it, args, n, f):
+    o = it.val_force(args[0])
+    if isinstance(o, StructV) and o.adt == OPTION:
+        if o.variant == "None":
+            return BoolV(False)
+        return it.call_value(args[1], [it.force(o.fields["0"])], n)
+    raise Unrecognised("is_some_and of %r" % (o,))
+
+
+@model("std::option::Option::<T>::filter", doc="keeps the payload iff the predicate holds")
+def opt_filter(it, args, n, f):
+    o = it.val_force(args[0])
+    if isinstance(o, StructV) and o.adt == OPTION:
+        if o.variant == "None":
+            return none()
+        keep = it.truth(it.call_value(args[1], [RefV(o.fields["0"], False)], n))
+        return o if keep else none()
+    raise Unrecognised("filter of %r" % (o,))
+
+
+@model("std::option::Option::<T>::ok_or", doc="Some(v)→Ok(v), None→Err(e)")
+def opt_ok_or(it, args, n, f):
+    o = it.val_force(args[0])
+    if isinstance(o, StructV) and o.adt == OPTION:
+        if o.variant == "Some":
+            return StructV(RESULT, "Ok", {"0": o.fields["0"]})
+        return StructV(RESULT, "Err", {"0": Cell(args[1], "err")})
+    raise Unrecognised("ok_or of %r" % (o,))
+
+
+@model("std::option::Option::<&T>::copied", "std::option::Option::<&T>::cloned", "std::option::Option::<&mut T>::copied",
+       doc="Option<&T> → Option<T>: same abstract payload")
+def opt_copied(it, args, n, f):
+    o = it.val_force(args[0])
+    if isinstance(o, StructV) and o.adt == OPTION:
+        if o.variant == "None":
+            return none()
+        r = it.force(o.fields["0"])
+        return some(it.force(r.cell)) if isinstance(r, RefV) else o
+    raise Unrecognised("copied of %r" % (o,))
+
+
+@model("core::bool::<impl bool>::then", doc="Some(f()) if true else None")
+def bool_then(it, args, n, f):
+    if it.truth(args[0]):
+        return some(it.call_value(args[1], [], n))
+    return none()
+
+
+@model("std::option::Option::<T>::map_or", doc="default, or the function applied to the payload")
+def opt_map_or(it, args, n, f):
+    o = it.val_force(args[0])
+    if isinstance(o, StructV) and o.adt == OPTION:
+        if o.variant == "None":
+            return args[1]
+        return it.call_value(args[2], [it.force(o.fields["0"])], n)
+    raise Unrecognised("map_or of %r" % (o,))
+
+
+@model("std::result::Result::<T, E>::is_ok", doc="reads the variant")
+def res_is_ok(it, args, n, f):
+    r = it.force(deref(it, args[0]))
+    if isinstance(r, StructV) and r.adt == RESULT:
+        return BoolV(r.variant == "Ok")
+    raise Unrecognised("is_ok of %r" % (r,))
+
+
+@model("std::option::Option::<T>::ok_or_else", doc="Some(v)→Ok(v), None→Err(f())")
+def opt_ok_or_else(it, args, n, f):
+    o = it.val_force(args[0])
+    if isinstance(o, StructV) and o.adt == OPTION:
+        if o.variant == "Some":
+            return StructV(RESULT, "Ok", {"0": o.fields["0"]})
+        return StructV(RESULT, "Err", {"0": Cell(it.call_value(args[1], [], n), "err")})
+    raise Unrecognised("ok_or_else of %r" % (o,))
